@@ -1132,10 +1132,10 @@ fn gen_c17(rng: &mut Rng, n: usize, out: &mut Vec<Case>) {
         let a: Vec<f64> = (0..na).map(|_| match rng.below(4) { 0 => (rng.below(9) as f64) - 4.0, 1 => rng.float(), 2 => (rng.below(5) as f64) * 1e300 - 2e300, _ => (rng.below(33) as f64) * 0.125 }).collect();
         // b: a copy of a with 0..2 single-number perturbations of assorted sizes (so that one field decides)
         let mut b: Vec<f64> = (0..nb).map(|i| if i < a.len() { a[i] } else { rng.float() }).collect();
-        for _ in 0..rng.below(3) {
+        for _ in 0..rng.below(4) {
             if b.is_empty() { break; }
             let i = rng.below(b.len() as u64) as usize;
-            b[i] = match rng.below(6) { 0 => b[i] + 0.125, 1 => b[i] + 2.0, 2 => b[i] * 1.25, 3 => f64::from_bits(b[i].to_bits().wrapping_add(1)), 4 => -b[i], _ => b[i] + 1e-17 };
+            b[i] = match rng.below(8) { 6 | 7 => b[i] + 0.75 * eps, 0 => b[i] + 0.125, 1 => b[i] + 2.0, 2 => b[i] * 1.25, 3 => f64::from_bits(b[i].to_bits().wrapping_add(1)), 4 => -b[i], _ => b[i] + 1e-17 };
         }
         let mut v = vec![ty as f64, eps, mr, na as f64];
         v.extend_from_slice(&a);
